@@ -294,6 +294,23 @@ def eas_results_density(numPEs, costhetaChEff, fig, ax):
 
 @decorators.ensure_plot_registry(dashboard)
 def show_plot(sim, sim_class, plot):
+    # The dashboard draws tau, decay and optical columns: it needs a results file with
+    # rows in which the optical channel ran.
+    columns = (
+        "log_e_nu",
+        "beta_rad",
+        "tauBeta",
+        "tauLorentz",
+        "tauEnergy",
+        "showerEnergy",
+        "tauExitProb",
+        "altDec",
+        "numPEs",
+        "costhetaChEff",
+    )
+    if len(sim) == 0 or any(c not in sim.colnames for c in columns):
+        return
+
     if dashboard.__name__ in plot:
         dashboard(sim, sim_class)
 
